@@ -25,7 +25,8 @@ def units(tier):
 
 def runner_tasks(tier):
     return [{"module": "c01", "task": "recognition", "kind": "bounded", "clause": "whole-string recognition and rejection"},
-            {"module": "stateful", "task": "C01", "name": "stateful", "kind": "bounded", "clause": "private table with customised data: formulas parsed with table=T use T's atoms and data"}]
+            {"module": "stateful", "task": "C01", "name": "stateful", "kind": "bounded", "clause": "private table with customised data: formulas parsed with table=T use T's atoms and data"},
+            {"module": "stateful", "task": "identity", "name": "atom identity", "kind": "bounded", "clause": "different atoms are unequal, distinct dictionary keys, kept apart by formulas"}]
 
 
 REPLAY = {"module": "c01", "task": "replay"}
